@@ -60,16 +60,5 @@ Lemma main_glwe_automorphism_add_partial (fam n : Z) (res a key : infos) :
   run_takes (tree_glwe_automorphism_add fam n res a key) (0, glwe_automorphism_tmp_bytes fam n res a key) <> None.
 Proof. intros Hf Hp H8. apply suffices_glwe_automorphism_add_partial; auto using pow2_nonneg, pow2_ge8. Qed.
 
-Lemma main_lwe_encrypt_sk_iff (fam n : Z) (lwe : infos) : is_fam fam -> pow2 n -> 0 <= i_size lwe ->
-  (run_takes (tree_lwe_encrypt_sk fam n lwe) (0, lwe_encrypt_sk_tmp_bytes fam n lwe) <> None <-> i_size lwe mod 8 = 0).
-Proof.
-  intros Hf Hp Hs. pose proof (pow2_pos n Hp). rewrite (suffices_lwe_encrypt_sk_iff fam n Hf ltac:(lia) lwe Hs). intuition; lia.
-Qed.
-Lemma main_lwe_decrypt_iff (fam n : Z) (lwe : infos) : is_fam fam -> pow2 n -> 0 <= i_size lwe ->
-  (run_takes (tree_lwe_decrypt fam n lwe) (0, lwe_decrypt_tmp_bytes fam n lwe) <> None <-> i_size lwe mod 8 = 0).
-Proof.
-  intros Hf Hp Hs. pose proof (pow2_pos n Hp). rewrite (suffices_lwe_decrypt_iff fam n Hf ltac:(lia) lwe Hs). intuition; lia.
-Qed.
-
 Lemma align_matches : gen_DEFAULTALIGN = ALIGN.
 Proof. reflexivity. Qed.
